@@ -158,3 +158,33 @@ func VerifC09_PriorityOrder() {
 		vr.Assert(prios[0] > prios[1], "C09.priorities-served-in-descending-order")
 	}
 }
+
+// VerifC09_ShareWeights: the time-based-fairness weights of one over-quota round (calcShareWeights)
+// for two unsatisfied sibling queues: no weight is negative (a queue that used more than its share
+// gets nothing, not a negative grant) and the returned normaliser is exactly the sum of the returned
+// weights - so the normalised weights of a round add up to one and a round never hands out more than
+// the amount it was given. Over-quota weights come from a concrete menu (the quotient w/total is
+// then concrete); historical usage and the k-value are arbitrary doubles in their documented ranges
+// (IEEE semantics in the FP theory; the sum is compared in both enumeration orders of the two queues
+// because FP addition of three terms is order-sensitive only through the leading 0, which is exact).
+// BOUND: 2 unsatisfied queues; over-quota weights in {1,2,3}; usage any double in [0,1]; k-value any double in [0, 2^10]
+func VerifC09_ShareWeights() {
+	res := rs.GpuResource
+	k := vr.AnyFloat64("kValue")
+	vr.Assume(k >= 0 && k <= 1<<10)
+	queues := map[common_info.QueueID]*rs.QueueAttributes{}
+	for _, name := range []string{"a", "b"} {
+		q := &rs.QueueAttributes{UID: common_info.QueueID(name), Name: name}
+		s := q.ResourceShare(res)
+		s.Deserved, s.MaxAllowed, s.Request, s.FairShare = 0, -1, 8, 0
+		s.OverQuotaWeight = float64(vr.Choose(name+".weight", 3) + 1)
+		s.Usage = vr.AnyFloat64(name + ".usage")
+		vr.Assume(s.Usage >= 0 && s.Usage <= 1)
+		queues[q.UID] = q
+	}
+	weights, sum := calcShareWeights(queues, res, k)
+	vr.Assert(len(weights) == 2, "C09.every-unsatisfied-queue-has-a-round-weight")
+	vr.Assert(weights["a"] >= 0 && weights["b"] >= 0, "C09.round-weights-never-negative")
+	vr.Assert(sum == 0.0+weights["a"]+weights["b"] || sum == 0.0+weights["b"]+weights["a"], "C09.round-normaliser-is-the-sum-of-the-round-weights")
+	vr.Cover(weights["a"] == 0 && weights["b"] > 0, "C09.cover.usage-floors-a-weight-to-zero")
+}
